@@ -298,9 +298,10 @@ func vfC51RouteClusters(routes []vfC51Route) map[string]bool {
 // ------------------------------------------------------------------ the recording channel
 
 type vfC51Event struct {
-	kind     string // state select commit iclose
+	kind     string // state select commit iclose hold release
 	children map[string]bool
 	xdsOK    map[string]bool // clusters with a usable entry in the XDSConfig attached to the state
+	xdsErr   map[string]string // clusters whose entry in that XDSConfig carries a resource error (reported by the xDS client)
 	marker   int
 	rpc      int
 	cluster  string
@@ -358,7 +359,7 @@ func (c *vfC51CC) UpdateState(s resolver.State) error {
 		<-rel
 	}
 
-	ev := vfC51Event{kind: "state", children: map[string]bool{}, xdsOK: map[string]bool{}}
+	ev := vfC51Event{kind: "state", children: map[string]bool{}, xdsOK: map[string]bool{}, xdsErr: map[string]string{}}
 	if s.ServiceConfig != nil {
 		if sc, ok := s.ServiceConfig.Config.(*vfC51SC); ok {
 			var parsed struct {
@@ -383,6 +384,8 @@ func (c *vfC51CC) UpdateState(s resolver.State) error {
 		for name, cr := range xc.Clusters {
 			if cr != nil && cr.Err == nil {
 				ev.xdsOK[clusterPrefix+name] = true
+			} else if cr != nil {
+				ev.xdsErr[clusterPrefix+name] = cr.Err.Error()
 			}
 		}
 		if xc.VirtualHost != nil && len(xc.VirtualHost.Routes) > 0 && xc.VirtualHost.Routes[0].MaxStreamDuration != nil {
@@ -524,6 +527,10 @@ func vfC51Run(t *testing.T, p vfC51Plan) (res vk.Result) {
 	held := false
 	unhold := func() {
 		if held {
+			// the parked UpdateState logs its state right after this event
+			cc.mu.Lock()
+			cc.log = append(cc.log, vfC51Event{kind: "release"})
+			cc.mu.Unlock()
 			close(cc.release)
 			held = false
 		}
@@ -675,6 +682,7 @@ func vfC51Run(t *testing.T, p vfC51Plan) (res vk.Result) {
 			}
 			if op.Kind == "hold" && !held {
 				cc.mu.Lock()
+				cc.log = append(cc.log, vfC51Event{kind: "hold"})
 				cc.holdNext = true
 				cc.blocked = make(chan struct{})
 				cc.release = make(chan struct{})
@@ -795,7 +803,14 @@ func vfC51Run(t *testing.T, p vfC51Plan) (res vk.Result) {
 	}
 	// first look at the log with the RPCs that are still open
 	verdict := func() *vk.Result {
-		v, dropped := vfC51CheckLog(cc)
+		v, dropped, env := vfC51CheckLog(cc)
+		if env != "" {
+			// the xDS client reported a resource error for a cluster the management
+			// server serves all the time (a transport-level artefact of the in-process
+			// server): outside the generated domain, like every other resource error
+			r := inconclusive("cluster_resource_error " + env)
+			return &r
+		}
 		if v == "" {
 			return nil
 		}
@@ -805,10 +820,11 @@ func vfC51Run(t *testing.T, p vfC51Plan) (res vk.Result) {
 			// the last RPC committed, then revived the not-yet-pruned entry for a
 			// route configuration that re-added the cluster
 			r.Sig = "c51.released_cluster_entry_revived"
-		} else if dropped != "" && vfC51RevivedAfterStop(cc, dropped) {
-			// variant of the same root cause (notes/C51.md): the resolver's last reference
-			// was dropped by stop() of the replaced selector, not by an RPC commit
-			r.Sig = "c51.stopped_selector_cluster_entry_revived"
+		} else if dropped != "" && vfC51DeadEntryRevived(cc, dropped) {
+			// every other way to the same root cause (notes/C51.md): the entry died by
+			// stop() of the replaced selector, or by a commit while the channel was
+			// parked, ... and was revived by a queued route update
+			r.Sig = "c51.dead_cluster_entry_revived"
 		}
 		return &r
 	}
@@ -894,7 +910,7 @@ func vfC51Run(t *testing.T, p vfC51Plan) (res vk.Result) {
 //   - The interceptor an RPC is bound to must be alive when the RPC is selected
 //     (a selector delivered to the channel must not be a stopped one) and must not
 //     be closed before the RPC is committed.
-func vfC51CheckLog(cc *vfC51CC) (msg string, watchDropped string) {
+func vfC51CheckLog(cc *vfC51CC) (msg string, watchDropped string, env string) {
 	cc.mu.Lock()
 	log := append([]vfC51Event(nil), cc.log...)
 	cc.mu.Unlock()
@@ -907,10 +923,10 @@ func vfC51CheckLog(cc *vfC51CC) (msg string, watchDropped string) {
 		switch ev.kind {
 		case "select":
 			if held != nil && !held.empty && !held.children[ev.cluster] {
-				return fmt.Sprintf("event %d: RPC #%d was routed to %s by the config selector the channel holds, but the service config delivered together with that selector (event %d) has children %s: the RPC's cluster is not in the channel's configuration", i, ev.rpc, ev.cluster, heldAt, vfC51Keys(held.children)), ""
+				return fmt.Sprintf("event %d: RPC #%d was routed to %s by the config selector the channel holds, but the service config delivered together with that selector (event %d) has children %s: the RPC's cluster is not in the channel's configuration", i, ev.rpc, ev.cluster, heldAt, vfC51Keys(held.children)), "", ""
 			}
 			if at, ok := closed[ev.icpt]; ok && ev.icpt != 0 {
-				return fmt.Sprintf("event %d: RPC #%d routed to %s got interceptor #%d, which was closed at event %d: the config selector the channel holds (delivered at event %d) is a stopped one", i, ev.rpc, ev.cluster, ev.icpt, at, heldAt), ""
+				return fmt.Sprintf("event %d: RPC #%d routed to %s got interceptor #%d, which was closed at event %d: the config selector the channel holds (delivered at event %d) is a stopped one", i, ev.rpc, ev.cluster, ev.icpt, at, heldAt), "", ""
 			}
 			open[ev.rpc] = ev.cluster
 			openIcpt[ev.rpc] = ev.icpt
@@ -923,7 +939,7 @@ func vfC51CheckLog(cc *vfC51CC) (msg string, watchDropped string) {
 			}
 			for rpc := 0; rpc < len(log); rpc++ {
 				if id, ok := openIcpt[rpc]; ok && id == ev.icpt {
-					return fmt.Sprintf("event %d: interceptor #%d was closed but RPC #%d routed to %s, which uses it, is not committed yet", i, ev.icpt, rpc, open[rpc]), ""
+					return fmt.Sprintf("event %d: interceptor #%d was closed but RPC #%d routed to %s, which uses it, is not committed yet", i, ev.icpt, rpc, open[rpc]), "", ""
 				}
 			}
 		case "state":
@@ -939,59 +955,96 @@ func vfC51CheckLog(cc *vfC51CC) (msg string, watchDropped string) {
 			for _, rpc := range ids {
 				cl := open[rpc]
 				if !ev.children[cl] {
-					return fmt.Sprintf("event %d: service config pushed to the channel has children %s but RPC #%d routed to %s is not committed yet", i, vfC51Keys(ev.children), rpc, cl), ""
+					return fmt.Sprintf("event %d: service config pushed to the channel has children %s but RPC #%d routed to %s is not committed yet", i, vfC51Keys(ev.children), rpc, cl), "", ""
+				}
+				if e, ok := ev.xdsErr[cl]; ok && strings.HasPrefix(cl, clusterPrefix) {
+					return "", "", fmt.Sprintf("event %d: %s: %s", i, cl, e)
 				}
 				if strings.HasPrefix(cl, clusterPrefix) && !ev.xdsOK[cl] {
-					return fmt.Sprintf("event %d: state pushed to the channel keeps child %s for uncommitted RPC #%d but its XDSConfig has no usable cluster entry for it (clusters with data: %s): the cluster's CDS/EDS watch was dropped", i, cl, rpc, vfC51Keys(ev.xdsOK)), cl
+					return fmt.Sprintf("event %d: state pushed to the channel keeps child %s for uncommitted RPC #%d but its XDSConfig has no usable cluster entry for it (clusters with data: %s): the cluster's CDS/EDS watch was dropped", i, cl, rpc, vfC51Keys(ev.xdsOK)), cl, ""
 				}
 			}
 		}
 	}
-	return "", ""
+	return "", "", ""
 }
 
-// vfC51RevivedAfterStop is the signature predicate of the second shape of the
-// stale-entry defect: some state replaced a selector routing to x by one not
-// routing to x while no RPC on x was open (stop() of the replaced selector drops
-// the resolver's last reference, the cluster subscription is released), x then
-// stayed a cluster-manager child in every state (the dead entry was never pruned)
-// until a state whose selector routes to x again (the dead entry was revived).
-func vfC51RevivedAfterStop(cc *vfC51CC, x string) bool {
+// vfC51DeadEntryRevived is the signature predicate for the general shape of the
+// stale-entry defect on cluster x, from the event log and a reference model of the
+// resolver's reference count: refs(x) = number of open RPCs on x + number of live
+// config selectors routing to x. Live selectors are the one the channel holds and,
+// while the channel is parked, also the selector of the parked state (built when
+// the channel was parked, logged on release); queued route updates have not built
+// a selector yet. The predicate holds iff at some point refs(x) was 0 while x was
+// still a cluster-manager child (a dead entry: its cluster subscription is
+// released), x then stayed a child in every state (never pruned), and a later
+// state's selector routes to x again (the dead entry was revived).
+func vfC51DeadEntryRevived(cc *vfC51CC, x string) bool {
 	cc.mu.Lock()
 	log := append([]vfC51Event(nil), cc.log...)
 	cc.mu.Unlock()
+	// the state logged first after a release is the one that was parked
+	parkedOf := map[int]*vfC51Event{} // index of a hold event -> parked state
+	lastHold := -1
+	afterRelease := false
+	for i := range log {
+		switch log[i].kind {
+		case "hold":
+			lastHold = i
+		case "release":
+			afterRelease = true
+		case "state":
+			if afterRelease && lastHold >= 0 {
+				parkedOf[lastHold] = &log[i]
+			}
+			afterRelease = false
+		}
+	}
 	open := map[int]string{}
-	var prev *vfC51Event
-	armed := false
+	var visible, parked *vfC51Event
+	dead := false
+	check := func() {
+		if dead || visible == nil || !visible.children[x] {
+			return
+		}
+		if visible.routes[x] || (parked != nil && parked.routes[x]) {
+			return
+		}
+		for _, cl := range open {
+			if cl == x {
+				return
+			}
+		}
+		dead = true
+	}
 	for i := range log {
 		ev := &log[i]
 		switch ev.kind {
+		case "hold":
+			parked = parkedOf[i] // nil if the run ended before a release
+			if parked == nil {
+				return false // cannot model the parked selector
+			}
 		case "select":
 			open[ev.rpc] = ev.cluster
 		case "commit":
 			delete(open, ev.rpc)
+			check()
 		case "state":
 			if ev.empty {
 				continue
 			}
-			if armed && !ev.children[x] {
-				armed = false // pruned in between: a later entry for x is a fresh one
+			if parked == ev {
+				parked = nil
 			}
-			if armed && ev.routes[x] {
+			if dead && !ev.children[x] {
+				dead = false // pruned: a later entry for x is a fresh one
+			}
+			if dead && ev.routes[x] {
 				return true
 			}
-			if prev != nil && prev.routes[x] && !ev.routes[x] {
-				inUse := false
-				for _, cl := range open {
-					if cl == x {
-						inUse = true
-					}
-				}
-				if !inUse {
-					armed = true
-				}
-			}
-			prev = ev
+			visible = ev
+			check() // stop() of the replaced selector
 		}
 	}
 	return false
